@@ -344,6 +344,20 @@ def r4_atomic_to(ctx):
         rets = [norm(reduce_ifexp(e.resolved, atom)) for q in cs for e in q.events if e.kind == "return" and e.resolved is not None]
         swapped = f"self._convert(self.magnitude, BaseUnits({x}), self.baseunits)"
         stores = sorted({str(e.extra) for q in cs for e in q.events if e.kind == "store" and str(e.extra).startswith("self.")})
+        # `if unit:` stands for `if unit is not None:` only while every object accepted as a unit is truthy
+        bare = any(isinstance(t.resolved, ast.Name) and t.resolved.id == x or
+                   (isinstance(t.resolved, ast.UnaryOp) and isinstance(t.resolved.op, ast.Not) and isinstance(t.resolved.operand, ast.Name) and t.resolved.operand.id == x)
+                   for q in _paths(fn) for t in q.tests())
+        if bare:
+            for rel_, cname_ in (("src/scinumtools/units/base_units.py", "BaseUnits"), ("src/scinumtools/units/dimensions.py", "Dimensions"), (Q, "Quantity")):
+                ms_ = methods(ctx.repo.cls(rel_, cname_))
+                falsy = [d_ for d_ in ("__bool__", "__len__") if d_ in ms_]
+                if falsy:
+                    ctx.violated(rel_, f"{cname_}.{falsy[0]}", "an object accepted as the target unit of value() is always truthy (value() tests `if unit:`)",
+                                 detail=f"{cname_} defines {falsy}: a unit-less {cname_} is falsy, so value(<it>) returns the raw magnitude without conversion or dimension check",
+                                 expected=f"no {falsy[0]} on {cname_}, or `if {x} is not None` in Quantity.value")
+                else:
+                    ctx.holds(rel_, cname_, "an object accepted as the target unit of value() is always truthy (value() tests `if unit:`)")
         if stores:
             ctx.violated(Q, "Quantity.value", what, detail={"stores to self": stores}, expected="no store: value() is a query")
         elif any(swapped in r for r in rets):
@@ -368,6 +382,8 @@ def r5_dimension_equality(ctx):
 
 
 def r6_readonly_conversion(ctx):
+    from . import C09 as _C09
+    _C09.r6_no_derived_state(ctx)   # the factor of a unit is read from the tables at conversion time, never from a memo
     """x*f(u)/f(v) for *every* read of a quantity in another unit only if a conversion does not write to the magnitude
     it converts (array magnitudes are shared objects): effect analysis shared with C07.R1."""
     from . import C07 as _C07
